@@ -726,7 +726,10 @@ func (ex *Exec) contractCall(key string, spec *FuncSpec, callee *ssa.Function, t
 				}
 			}
 		}
-		cev := ex.evalHere()
+		// ghost arguments are written in terms of the function under verification (its locals, ghost state and
+		// ghost parameters), also when the call sits in code inlined into it
+		cev := ex.topExec().evalHere()
+		cev.st = ex.curState
 		for _, gp := range spec.GhostParam {
 			vt := ev.resolveType(gp.Type)
 			if hint != nil && hint.Ghost[gp.Name] != nil {
